@@ -41,6 +41,9 @@ type callT struct {
 	Now int64 // ticks
 	// Pause: before this call, wait (wall clock) until the store's 5-minute cleanup ticker has fired once
 	Pause bool `json:",omitempty"`
+	// Cancel: (middleware cases) the request's context is cancelled by the handler while it runs — a client
+	// that hangs up or times out mid-request; the call has been admitted and served all the same
+	Cancel bool `json:",omitempty"`
 }
 
 // cleanupWait is how long after its creation a store has certainly run its first cleanup.
@@ -446,7 +449,13 @@ func (k *caseT) runMw(id string, st *hx.Stats, gen *traceGen, n int) string {
 			r.Use(ratelimit.WithTokenBucket(ratelimit.TokenBucket{Rate: k.Rate, Burst: k.Burst, Store: cs},
 				commonOpts(k.Headers, k.Enforce, k.Callback)))
 		}
-		r.GET("/", func(*router.Context) { ran = true })
+		type cancelKey struct{}
+		r.GET("/", func(c *router.Context) {
+			ran = true
+			if cancel, ok := c.Request.Context().Value(cancelKey{}).(context.CancelFunc); ok {
+				cancel()
+			}
+		})
 		t0 := time.Now()
 		idled := false
 		cnt := len(k.Calls)
@@ -473,7 +482,16 @@ func (k *caseT) runMw(id string, st *hx.Stats, gen *traceGen, n int) string {
 				time.Sleep(time.Duration(k.IdleMs) * time.Millisecond)
 			}
 			ran = false
-			m, _ := serveOnce(r, c.Key, nil)
+			if gen != nil && gen.r.Chance(1, 5) {
+				c.Cancel = true
+				k.Calls[len(k.Calls)-1].Cancel = true
+			}
+			var rctx context.Context
+			if c.Cancel {
+				cctx, cancel := context.WithCancel(context.Background())
+				rctx = context.WithValue(cctx, cancelKey{}, cancel)
+			}
+			m, _ := serveOnce(r, c.Key, rctx)
 			m.Ran = ran
 			row := rowT{m: m}
 			if cs != nil {
@@ -534,6 +552,13 @@ func (k *caseT) runMw(id string, st *hx.Stats, gen *traceGen, n int) string {
 		}
 	}
 	stats(st, "M", k.Rate, k.Burst, k.Calls, outs, in[len(id):], false)
+	if st != nil {
+		for _, c := range k.Calls {
+			if c.Cancel {
+				st.Count("M.requests_whose_context_is_cancelled_in_the_handler")
+			}
+		}
+	}
 	if st != nil && k.ViaNew {
 		st.Count("M.via_New_wall_clock")
 		if k.OmitRate || k.OmitBurst || k.OmitKey {
@@ -580,6 +605,16 @@ type winCase struct {
 	// DefaultStore: two limiters configured WITHOUT a Store (each gets the package's default), same key,
 	// windows W and NoiseW, on two routes of one router; only the first limiter's requests are judged
 	DefaultStore bool `json:",omitempty"`
+	// SharedStore (with DefaultStore's two-limiter layout): both limiters get ONE explicit InMemoryStore.
+	// Window NoiseW = 2·W, the case starts in the second half of a NoiseW window, and the second limiter is
+	// used only after the first one is exhausted: then its traffic can only inflate counts that are already
+	// at the limit, so the first limiter's answers are those of a limiter on its own
+	SharedStore bool `json:",omitempty"`
+	// Stale: (uses the verif hook of the in-memory store) the LAST-BUT-ONE request reads its clock just before
+	// a window boundary and is held right after that read; the LAST request is served completely just after
+	// the boundary; then the held one goes on — a call that reaches the entry with a clock reading older than
+	// the entry's window
+	Stale bool `json:",omitempty"`
 	NoiseW       int  `json:",omitempty"`
 	NoiseLimit   int  `json:",omitempty"`
 	Reqs                       []winReq
@@ -649,8 +684,25 @@ func (w *winCase) runDefault(id string) (line string, discard string, nontrivial
 	ran := false
 	r := router.MustNew()
 	h := func(*router.Context) { ran = true }
-	r.GET("/a", ratelimit.WithSlidingWindow(ratelimit.SlidingWindow{Window: window, Limit: w.Limit}, commonOpts(w.Headers, w.Enforce, w.Callback)), h)
-	r.GET("/b", ratelimit.WithSlidingWindow(ratelimit.SlidingWindow{Window: time.Duration(w.NoiseW) * time.Second, Limit: w.NoiseLimit}, commonOpts(true, true, false)), h)
+	var storeA, storeB ratelimit.WindowStore
+	if w.SharedStore {
+		shared := ratelimit.NewInMemoryStore()
+		storeA, storeB = shared, shared
+		// start in the second half of a NoiseW window (so that the longer window's start lies before the shorter one's)
+		nw := time.Duration(w.NoiseW) * time.Second
+		for {
+			off := time.Since(time.Now().Truncate(nw))
+			if off >= nw/2+20*time.Millisecond && off < nw/2+400*time.Millisecond {
+				break
+			}
+			time.Sleep(time.Until(time.Now().Truncate(nw).Add(nw/2 + 30*time.Millisecond)))
+			if time.Since(time.Now().Truncate(nw)) < nw/2 {
+				time.Sleep(time.Until(time.Now().Truncate(nw).Add(nw/2 + 30*time.Millisecond)))
+			}
+		}
+	}
+	r.GET("/a", ratelimit.WithSlidingWindow(ratelimit.SlidingWindow{Window: window, Limit: w.Limit, Store: storeA}, commonOpts(w.Headers, w.Enforce, w.Callback)), h)
+	r.GET("/b", ratelimit.WithSlidingWindow(ratelimit.SlidingWindow{Window: time.Duration(w.NoiseW) * time.Second, Limit: w.NoiseLimit, Store: storeB}, commonOpts(true, true, false)), h)
 	type rowT struct {
 		t0, t1 int64
 		m      mwObs
@@ -716,9 +768,144 @@ func (w *winCase) runDefault(id string) (line string, discard string, nontrivial
 	return l.String(), "", true, false
 }
 
+var staleSeq struct {
+	sync.Mutex
+	n     int
+	armed map[string]chan struct{} // key -> released when the holder may go on
+	hit   map[string]chan struct{} // key -> closed when the held call has arrived at the hook
+	once  sync.Once
+}
+
+// runStale: window 1 s, limit L. n1 = L+2 requests one after the other ~300 ms before a window boundary, then
+// the stale request (held by the hook after its clock read, 3 ms before the boundary), the fresh request
+// (3 ms after), then the stale one is released. Whatever the store does with the stale clock reading, the
+// stale request belongs to the old window (full) and the fresh one sees the old window weigh ≥ L.
+func (w *winCase) runStale(id string) (line string, discard string, nontrivial bool, raced bool) {
+	staleSeq.once.Do(func() {
+		staleSeq.armed, staleSeq.hit = map[string]chan struct{}{}, map[string]chan struct{}{}
+		ratelimit.VerifSetYield(func(point, key string) {
+			if point != "window.getcounts.clock" {
+				return
+			}
+			staleSeq.Lock()
+			rel, ok := staleSeq.armed[key]
+			hit := staleSeq.hit[key]
+			delete(staleSeq.armed, key)
+			staleSeq.Unlock()
+			if ok {
+				close(hit)
+				<-rel
+			}
+		})
+	})
+	staleSeq.Lock()
+	staleSeq.n++
+	key := fmt.Sprintf("stale-%d-%d", os.Getpid(), staleSeq.n)
+	staleSeq.Unlock()
+	window := time.Second
+	store := ratelimit.NewInMemoryStore()
+	type ctxK struct{}
+	r := router.MustNew()
+	r.Use(ratelimit.WithSlidingWindow(ratelimit.SlidingWindow{Window: window, Limit: w.Limit, Store: store}, commonOpts(true, true, false)))
+	r.GET("/", func(c *router.Context) { *(c.Request.Context().Value(ctxK{}).(*bool)) = true })
+	type rowT struct {
+		t0, t1 int64
+		m      mwObs
+	}
+	do := func() rowT {
+		ran := false
+		ctx := context.WithValue(context.Background(), ctxK{}, &ran)
+		t0 := time.Now().UnixNano()
+		m, _ := serveOnce(r, key, ctx)
+		m.Ran = ran
+		return rowT{t0, time.Now().UnixNano(), m}
+	}
+	boundary := time.Now().Truncate(window).Add(window)
+	if time.Until(boundary) < 400*time.Millisecond {
+		boundary = boundary.Add(window)
+	}
+	time.Sleep(time.Until(boundary.Add(-300 * time.Millisecond)))
+	var rows []rowT
+	for i := 0; i < w.Limit+2; i++ {
+		row := do()
+		if row.t0/1e9 != row.t1/1e9 || row.t1 >= boundary.UnixNano()-50e6 {
+			return "", "W.discarded_stale_case_timing", false, false
+		}
+		rows = append(rows, row)
+	}
+	rel, hit := make(chan struct{}), make(chan struct{})
+	staleSeq.Lock()
+	staleSeq.armed[key], staleSeq.hit[key] = rel, hit
+	staleSeq.Unlock()
+	time.Sleep(time.Until(boundary.Add(-3 * time.Millisecond)))
+	var stale rowT
+	done := make(chan struct{})
+	go func() { defer close(done); stale = do() }()
+	select {
+	case <-hit:
+	case <-time.After(time.Second):
+		close(rel)
+		<-done
+		return "", "W.discarded_stale_case_hook_not_reached", false, false
+	}
+	heldBefore := time.Now().Before(boundary)
+	time.Sleep(time.Until(boundary.Add(3 * time.Millisecond)))
+	fresh := do()
+	close(rel)
+	<-done
+	if !heldBefore || stale.t0 >= boundary.UnixNano()-500e3 || fresh.t0 <= boundary.UnixNano() || fresh.t0/1e9 != fresh.t1/1e9 ||
+		fresh.t1 > boundary.UnixNano()+100e6 || stale.t1 > boundary.UnixNano()+200e6 {
+		return "", "W.discarded_stale_case_timing", false, false
+	}
+	n := len(rows)
+	all := append(append([]rowT(nil), rows...), stale, fresh) // indices: 0..n-1 sequential, n stale, n+1 fresh
+	l := hx.NewLine(id).Tok("W").Nat(w.Limit).Nat(1).Bool(true).Bool(true).Bool(false).Nat(len(all))
+	for _, row := range all {
+		l.Str(key).I64(row.t0)
+	}
+	sched := serialSched(n)
+	sched = append(sched, opT{true, n + 1}, opT{false, n + 1}, opT{true, n}, opT{false, n})
+	l.Nat(len(sched))
+	for _, op := range sched {
+		if op.G {
+			l.Tok("G")
+		} else {
+			l.Tok("I")
+		}
+		l.Nat(op.I)
+	}
+	l.Nat(0).Sep().Nat(len(all))
+	for i := 0; i < n; i++ {
+		l.Nat(i)
+		all[i].m.tokens(l)
+	}
+	l.Nat(n + 1)
+	fresh.m.tokens(l)
+	l.Nat(n)
+	stale.m.tokens(l)
+	return l.String(), "", true, true
+}
+
+// genWinShared: two limiters on one explicit store, windows W and 2·W, same key; the first limiter is
+// exhausted, then the second one is used, then the first again (must still be exhausted).
+func genWinShared(r *hx.Rand) *winCase {
+	w := &winCase{Limit: r.Range(2, 5), W: 2, Headers: true, Enforce: true, DefaultStore: true, SharedStore: true, NoiseW: 4, NoiseLimit: 1000}
+	for i, n := 0, w.Limit+r.Range(1, 2); i < n; i++ {
+		w.Reqs = append(w.Reqs, winReq{Key: "a"})
+	}
+	for i, n := 0, r.Range(1, 3); i < n; i++ {
+		w.Reqs = append(w.Reqs, winReq{Key: "a", Noise: true})
+	}
+	for i, n := 0, r.Range(1, 3); i < n; i++ {
+		w.Reqs = append(w.Reqs, winReq{Key: "a"})
+	}
+	return w
+}
+
 func genWinDefault(r *hx.Rand) *winCase {
 	w := &winCase{Limit: r.Range(2, 4), W: 3600, Headers: true, Enforce: true, DefaultStore: true,
 		NoiseW: hx.Pick(r, []int{1, 1, 2}), NoiseLimit: 1000}
+	w.SharedStore = r.Chance(1, 2) // one explicit store for both limiters (K16e) instead of each one's default
 	a := func() { w.Reqs = append(w.Reqs, winReq{Key: "a"}) }
 	b := func(next bool) { w.Reqs = append(w.Reqs, winReq{Key: "a", Noise: true, NextSec: next}) }
 	if r.Chance(1, 3) {
@@ -746,6 +933,9 @@ func genWinDefault(r *hx.Rand) *winCase {
 func (w *winCase) run(id string) (line string, discard string, nontrivial bool, raced bool) {
 	if w.DefaultStore {
 		return w.runDefault(id)
+	}
+	if w.Stale {
+		return w.runStale(id)
 	}
 	n := len(w.Reqs)
 	window := time.Duration(w.W) * time.Second
@@ -897,7 +1087,7 @@ func (w *winCase) run(id string) (line string, discard string, nontrivial bool, 
 
 // shape is the case without its wall-clock stamps (distinctness is counted on it).
 func (w *winCase) shape() string {
-	s := fmt.Sprintf("W %d %d %v %v %v %v %d", w.Limit, w.W, w.Headers, w.Enforce, w.Callback, w.DefaultStore, w.NoiseW)
+	s := fmt.Sprintf("W %d %d %v %v %v %v %d %v %v", w.Limit, w.W, w.Headers, w.Enforce, w.Callback, w.DefaultStore, w.NoiseW, w.SharedStore, w.Stale)
 	for _, q := range w.Reqs {
 		s += fmt.Sprintf(" %s/%v/%d/%v/%v/%d", q.Key, q.SleepToNextWindow, q.RetryOf, q.Noise, q.NextSec, q.SleepMs/500)
 	}
@@ -1202,7 +1392,11 @@ func main() {
 		var wg sync.WaitGroup
 		for i := range rolls {
 			rolls[i].id = fmt.Sprintf("c16-%d-roll-%d", a.Seed, i)
-			if i%3 == 2 {
+			if i%6 == 3 {
+				rolls[i].k = &caseT{Kind: "W", Win: &winCase{Limit: r.Range(2, 5), W: 1, Headers: true, Enforce: true, Stale: true}}
+			} else if i%12 == 5 {
+				rolls[i].k = &caseT{Kind: "W", Win: genWinShared(r)} // two limiters on one explicit store, nested windows
+			} else if i%3 == 2 {
 				rolls[i].k = &caseT{Kind: "W", Win: genWinDefault(r)} // two limiters on the default store
 			} else if i%6 == 1 {
 				W := 7
@@ -1383,7 +1577,11 @@ func main() {
 			fmt.Fprintln(w, rr.line+hx.Comment(rr.k))
 			st.Case(rr.k.Win.shape(), rr.nt)
 			st.Count("W.cases")
-			if rr.k.Win.DefaultStore {
+			if rr.k.Win.Stale {
+				st.Count("W.call_overtaken_after_its_clock_read_at_a_window_boundary")
+			} else if rr.k.Win.SharedStore {
+				st.Count("W.two_limiters_on_one_explicit_store_nested_windows")
+			} else if rr.k.Win.DefaultStore {
 				st.Count("W.two_limiters_on_the_default_store")
 			} else if 86400%rr.k.Win.W != 0 {
 				st.Count("W.real_time_window_not_dividing_24h")
